@@ -314,7 +314,7 @@ func (st *runState) runBatch(id, lo, hi int) {
 		cmd := exec.Command(st.worker, "run", st.prop, st.tier, strconv.FormatUint(st.seed, 10), strconv.Itoa(lo), strconv.Itoa(hi), logPath, curPath)
 		cmd.Stdout = errf
 		cmd.Stderr = errf
-		cmd.Env = append(os.Environ(), "GOTRACEBACK=all", "GORACE=halt_on_error=0 log_path="+base+".race")
+		cmd.Env = append(os.Environ(), "GOTRACEBACK=all", "GORACE=halt_on_error=0 exitcode=0 log_path="+base+".race")
 		if err := cmd.Start(); err != nil {
 			die("cannot start worker: %v", err)
 		}
@@ -556,6 +556,11 @@ func (st *runState) collectRaces() {
 		for _, blk := range blocks[1:] {
 			st.counters["race_reports"]++
 			key := raceKey(blk)
+			if key == "" { // no gophersat frame in either access: a race of the harness itself
+				st.counters["harness_only_race_reports"]++
+				st.inconcl = append(st.inconcl, "race report without any gophersat frame (harness): "+filepath.Base(f))
+				continue
+			}
 			if seen[key] {
 				continue
 			}
